@@ -102,13 +102,40 @@ def seed_fault(version, fault, pos, exhaustive=False):
             _attr(dup, "inLibrary", [lib])
         desc = n.findtext("name")
     elif fault == "attribute-from-other-section":
-        n = pick(nodes_l)
-        cand = [a for a in ("unitSymbol", "SIUnit", "unitPrefix", "SIUnitModifier", "defaultUnits") if a in attr_defs]
-        if n is None or not cand:
+        # every declared attribute x every kind of element it is not declared for
+        sections = {"tag": nodes_l}
+        if not lib:
+            sections.update({"unitClass": uclasses, "unit": units, "valueClass": vclasses,
+                             "unitModifier": root.findall("unitModifierDefinitions/unitModifierDefinition")})
+        domain_words = {"tag": ("tagDomain", "nodeProperty"), "unitClass": ("unitClassDomain", "unitClassProperty"),
+                        "unit": ("unitDomain", "unitProperty"), "valueClass": ("valueClassDomain", "valueClassProperty"),
+                        "unitModifier": ("unitModifierDomain", "unitModifierProperty")}
+        pairs = []
+        for ad in root.findall("schemaAttributeDefinitions/schemaAttributeDefinition"):
+            a = ad.findtext("name")
+            props = {p.findtext("name") for p in ad.findall("property")}
+            if props & {"elementDomain", "elementProperty"}:
+                continue
+            doms = {sec for sec, words in domain_words.items() if props & set(words)}
+            if not doms:
+                doms = {"tag"}                      # the older schemas mark only the non-tag attributes
+            is_bool = bool(props & {"boolRange", "boolProperty"})
+            for sec in sorted(sections):
+                if sec not in doms and sections[sec]:
+                    pairs.append((a, sec, is_bool))
+        if not pairs:
             return None
-        a = cand[pos % len(cand)]
-        _attr(n, a, ["s"] if a == "defaultUnits" else None)
-        desc = f"{a} on tag {n.findtext('name')}"
+        a, sec, is_bool = pairs[(pos * 7 + pos // len(pairs)) % len(pairs)]
+        n = pick(sections[sec])
+        if n is None:
+            return None
+        if _get_attr(n, a) is not None:
+            return None
+        values = {"unitClass": [uclasses[0].findtext("name")] if uclasses else ["x"],
+                  "valueClass": [vclasses[0].findtext("name")] if vclasses else ["x"],
+                  "defaultUnits": ["s"], "allowedCharacter": ["letters"], "conversionFactor": ["1.0"]}
+        _attr(n, a, None if is_bool else values.get(a, [nodes[0].findtext("name")]))
+        desc = f"{a} on {sec} {n.findtext('name')}"
     elif fault == "unknown-attribute":
         targets = nodes_l + (units if not lib else []) + (vclasses if not lib else [])
         n = pick(targets)
@@ -262,7 +289,11 @@ def check_seeded(case, rec):
         if isinstance(ex, HedFileError) and case["fault"] == "duplicate-node":
             rec.count("duplicate-rejected-at-load", case["version"])
             return True
-        key = "default-units-on-non-unit-class" if (type(ex).__name__ == "AttributeError" and "defaultUnits" in str(desc)) else None
+        key = None
+        if type(ex).__name__ == "AttributeError" and "defaultUnits" in str(desc):
+            key = "default-units-on-non-unit-class"
+        elif type(ex).__name__ == "AttributeError" and str(desc).split(" ")[0] in ("unitClass", "valueClass"):
+            key = "class-attribute-on-non-tag"
         rec.violation(f"loading / compliance checking the seeded schema raised {type(ex).__name__}",
                       dict(case, message=str(ex)[:200]), key=key)
         return True
